@@ -8,7 +8,7 @@ theorem safeMul_eq (w a b : Nat) (hw : w % 2 = 0) (_ha : a < 2 ^ w) (_hb : b < 2
   have hpos : 0 < 2 ^ w := Nat.two_pow_pos w
   have hsq : 2 ^ (w / 2) * 2 ^ (w / 2) = 2 ^ w := by
     rw [← Nat.pow_add]; congr 1; omega
-  unfold safeMul
+  unfold safeMul safeMulCore
   simp only [Nat.one_shiftLeft]
   split
   · next h =>
